@@ -171,6 +171,7 @@ func runCase(f failer, prop string, cfg world.Cfg, params hist.Params, orc oracl
 		failf(f, "Initialize on an empty drive failed: %v", r.W.InitErr)
 	}
 	x := &hctx{prop: prop, f: f, cfg: cfg, r: r, mr: hist.NewMRunner(), labels: map[string]bool{}, params: params}
+	x.mr.M.WPIR = cfg.WPIR
 	for i := 0; ; i++ {
 		s, ok := next(x, i)
 		if !ok {
